@@ -96,6 +96,9 @@ func newLoop(opts ...midi.Option) *loop {
 	_, err := midi.ListenTo(ins[0], func(m midi.Message, ts int32) {
 		l.got = append(l.got, append(midi.Message(nil), m...))
 		l.ts = append(l.ts, ts)
+		for k := range m { // the receiver edits what it was handed
+			m[k] ^= 0x2A
+		}
 	}, opts...)
 	if err != nil {
 		panic(err)
@@ -126,7 +129,7 @@ func init() {
 			"out-of-range system-common arguments only need a well-formed message (statement)",
 			"loopback is observed through drivers/testdrv + midi.ListenTo with all listen options enabled",
 		},
-		Require: []string{"ctor_points", "loopback_deliveries", "accessor_calls", "out_of_range_points", "concurrent_ctor_points", "nil_pattern_calls", "conversations_with_replies_to_replies"},
+		Require: []string{"ctor_points", "loopback_deliveries", "accessor_calls", "out_of_range_points", "concurrent_ctor_points", "nil_pattern_calls", "conversations_with_replies_to_replies", "loopback_repeated_deliveries"},
 		Run:     runC07,
 	})
 }
@@ -172,6 +175,14 @@ func runC07(c *mon.Ctx) {
 			return
 		}
 		c.Count("loopback_deliveries", 1)
+		// the same value once more, right after the receiver edited the first arrival in place
+		got = lp.roundTrip(m)
+		c.Count("loopback_sends", 1)
+		if len(got) != 1 || !bytes.Equal(got[0], m) {
+			c.Violation("loopback-repeat:"+name, fmt.Sprintf("%s%v sent a second time, after the receiver had edited the first arrival in place, arrived as %v", name, args, mon.HexList(toBytes(got))), args, mon.Hex(m), mon.HexList(toBytes(got)))
+			return
+		}
+		c.Count("loopback_repeated_deliveries", 1)
 	}
 
 	// two-data-byte constructors: one case per (constructor, channel argument)
